@@ -1,5 +1,5 @@
 """C15 helper: program description (modules, items) -> source files, as G (generic) or M (specialised)."""
-from checks.c15_lang import (Lang, Ctx, FuncDef, subst, subst_body, is_concrete, mangle, list_depth, show_word,
+from checks.c15_lang import (Lang, Ctx, FuncDef, subst, subst_body, is_concrete, mangle, list_depth, show_word, canon, named_in,
                              ART_DAT, ADJ_PUB_DAT, ART_ACC_INDEF, ART_NOM, TypeErrorInModel)
 
 
@@ -16,7 +16,14 @@ class Module:
 class Program:
     """items of a module, in order:
       ('struct', name) ('global', name, type, expr, public) ('func', fname) ('fwd', fname)
-      ('zeige',) ('stmts', [stmts]) ('raw', text) ('typealias', name, type, gender)"""
+      ('zeige',) ('stmts', [stmts]) ('raw', text)
+      ('named', type)   declaration of a type definition ('d',..) or type alias ('a',..); public unless in the main module.
+                        M with monomorphic Kombinationen: the instantiations that mention the type and cannot be declared in
+                        the module of the generic Kombination (which cannot name the type) follow immediately
+      ('spechome',)     M only: the specialisations of imported generic functions whose instantiation types mention a type that
+                        the declaring module of the generic function cannot name (a type definition of the CALLING module).
+                        Such a specialisation exists as text only where the type can be named; the generator keeps the bodies of
+                        these generic functions free of names private to their module, so the text means the same here"""
 
     def __init__(self, spec_mode='overload', mono=False):
         self.structs = {}
@@ -27,6 +34,8 @@ class Program:
         self.mono = mono
         self.insts = None
         self.single = False
+        self.named_mod = {}        # type definition / alias (the type tuple: two modules may use one NAME for different private types) -> module declaring it
+        self.named_private = set() # those declared without `öffentlich` although their module is imported by others
 
     # ---------------- construction
     def module(self, name):
@@ -60,6 +69,28 @@ class Program:
             return None
         return look(modname, True)
 
+    # ---------------- which module can spell which type
+    def can_name(self, modname, t):
+        m = self.module(modname)
+        for n in named_in(t):
+            home = self.named_mod.get(n)
+            if home is None:
+                raise TypeErrorInModel('undeclared named type ' + n[1])
+            if home != modname and (home not in m.imports or n in self.named_private):
+                return False
+        return True
+
+    def sig_home(self, f, sig):
+        """the module that holds the textual specialisation of f for sig in M: the module of f if it can spell the types,
+        otherwise the first module with a ('spechome',) item that can"""
+        own = self.func_module[f.name]
+        if all(self.can_name(own, t) for _, t in sig):
+            return own
+        for m in self.modules:
+            if any(it[0] == 'spechome' for it in m.items) and all(self.can_name(m.name, t) for _, t in sig) and (own == m.name or own in m.imports):
+                return m.name
+        raise TypeErrorInModel('no module can hold the specialisation of %s' % f.name)
+
     # ---------------- instantiation closure
     def spec_word(self, f, sig):
         if self.spec_mode != 'rename' or '{W}' not in f.alias:
@@ -78,8 +109,11 @@ class Program:
         def absorb(ctx, modname):
             m = self.module(modname)
             for t in ctx.shows:
+                t = canon(t)
                 if not is_concrete(t):
                     raise TypeErrorInModel('show of open type')
+                if not self.can_name(modname, t):
+                    raise TypeErrorInModel('show of a type the module cannot name')
                 if t not in m.shows:
                     m.shows.append(t)
             for fn, sig in ctx.calls:
@@ -163,6 +197,8 @@ class Program:
                     body.append(payload)
                 elif kind == 'structs':
                     body.append('\n'.join(self._render_structs(lang, m, payload, mode)))
+                elif kind == 'monohome':
+                    body.append('\n'.join(self._render_monohome(lang, m, payload[1])))
             text_body = '\n'.join(body)
             lines.append('Binde "Duden/Ausgabe" ein.')
             for imp in m.imports:
@@ -172,6 +208,7 @@ class Program:
         return files
 
     def _collect_ginsts(self, lang, t):
+        t = canon(t)
         k = t[0]
         if k == 'l':
             self._collect_ginsts(lang, t[1])
@@ -217,9 +254,28 @@ class Program:
                 f = self.funcs[it[1]]
                 if f.generic and mode == 'M':
                     for sig in self.insts[f.name]:
-                        chunks += self._render_func(lang, m, self._specialise(f, sig), mode, define_only=f.forward)
+                        if self.sig_home(f, sig) == m.name:
+                            chunks += self._render_func(lang, m, self._specialise(f, sig), mode, define_only=f.forward)
                 else:
                     chunks += self._render_func(lang, m, f, mode)
+            elif k == 'spechome':
+                if mode == 'M':
+                    for om in self.modules:
+                        if om is m:
+                            continue
+                        for oit in om.items:
+                            if oit[0] != 'func' or not self.funcs[oit[1]].generic:
+                                continue
+                            f = self.funcs[oit[1]]
+                            for sig in self.insts[f.name]:
+                                if self.sig_home(f, sig) == m.name:
+                                    sp = self._specialise(f, sig)
+                                    sp.public = m is not self.modules[-1] and not any(n in self.named_private for _, t in sig for n in named_in(t))
+                                    chunks += self._render_func(lang, m, sp, mode)
+            elif k == 'named':
+                chunks.append(self._render_named(lang, m, it[1]))
+                flush()
+                out.append(('monohome', it[1]))
             elif k == 'fwd':
                 f = self.funcs[it[1]]
                 if mode == 'M':
@@ -243,7 +299,9 @@ class Program:
         # zeige set: rendered now (types are known from close()); aliases for nested lists afterwards
         res = []
         for kind, payload in out:
-            if kind == 'zeige':
+            if kind == 'monohome':
+                res.append(('monohome', (m, payload)))
+            elif kind == 'zeige':
                 z = []
                 for t in m.shows:
                     z += self._render_zeige(lang, m, t, mode)
@@ -259,9 +317,10 @@ class Program:
             al.append('Wir nennen eine %s auch eine Reihe_%s.' % (lang.tname(e), mangle(e)))
         final = []
         placed = False
-        for kind, payload in res:
+        last = max([i for i, (kind, _) in enumerate(res) if kind == 'aliases'] or [-1])
+        for i, (kind, payload) in enumerate(res):
             if kind == 'aliases':
-                if not placed:
+                if i == last:        # after the last block of Kombinationen (a type definition of a Kombination splits them)
                     final.append(('text', '\n'.join(al) + ('\n' if al else '')))
                     placed = True
             else:
@@ -314,11 +373,49 @@ class Program:
         out.append('')
         return out
 
+    # ---------------- type definitions and aliases
+    def _render_named(self, lang, m, t):
+        pub = 'öffentlich ' if (not self.single and m is not self.modules[-1] and t not in self.named_private) else ''
+        a_new = ART_ACC_INDEF[lang.gender(t)]
+        a_old = ART_ACC_INDEF[lang.gender(t[2])]
+        if t[0] == 'd':
+            return 'Wir definieren %s %s %sals %s %s.' % (a_new, t[1], pub, a_old, lang.tname_after(t[2], a_old))
+        return 'Wir nennen %s %s %sauch %s %s.' % (a_old, lang.tname_after(t[2], a_old), pub, a_new, t[1])
+
+    def _struct_home(self, t):
+        """module that declares the monomorphic counterpart of the instantiation t: the module of the generic Kombination if it
+        can spell the type arguments, else the module of the first named type it cannot spell"""
+        for mod in self.modules:
+            if any(it[0] == 'struct' and it[1] == t[1] for it in mod.items):
+                if self.can_name(mod.name, t):
+                    return mod.name, None
+                for n in named_in(t):
+                    if not self.can_name(mod.name, n):
+                        return self.named_mod[n], n
+        raise KeyError(t[1])
+
+    def _render_monohome(self, lang, m, named):
+        out = []
+        if not lang.mono:
+            return out
+        pub = not self.single and m is not self.modules[-1] and named not in self.named_private
+        for t in self._ginsts:          # dependency order
+            home, after = self._struct_home(t)
+            if home == m.name and after == named:
+                sd = self.structs[t[1]]
+                out += self._render_struct(lang, sd, lang.mono_name(t), dict(zip(sd.tparams, t[2])), pub, False)
+        return out
+
     # ---------------- zeige
     def _leaves(self, e, t, depth=0):
+        t = canon(t)
         k = t[0]
         if k == 'p':
             return [('write', e)]
+        if k == 'd':
+            # the NAME of the type definition is part of the output: which overload of `zeige` ran is observable
+            return ([('write', ('lit', ('p', 'Text'), '"%s("' % t[1]))] + self._leaves(('cast', e, t[2]), t[2], depth + 1) +
+                    [('write', ('lit', ('p', 'Text'), '")"'))])
         if k == 'l':
             el = t[1]
             if el[0] == 'p':
@@ -352,7 +449,7 @@ class Program:
         for n in plain:
             out += self._render_struct(lang, self.structs[n], n, {}, pub, False)
         if lang.mono:
-            todo = [t for t in self._ginsts if t[1] in gen]
+            todo = [t for t in self._ginsts if t[1] in gen and self._struct_home(t)[0] == m.name and self._struct_home(t)[1] is None]
             for t in todo:   # _ginsts is in dependency order (inner instantiations were appended first)
                 sd = self.structs[t[1]]
                 out += self._render_struct(lang, sd, lang.mono_name(t), dict(zip(sd.tparams, t[2])), pub, False)
